@@ -24,7 +24,10 @@ EXPLANATION = (
     "index). R-C11-rerank: local indices are dense ranks of cell globally, branch within cell, comp "
     "within (cell, branch). R-C11-edges: a node-selected view keeps an edge iff BOTH ends are in view "
     "and intersects with the parent's edges; an edge-selected view keeps the end compartments. "
-    "R-C11-loc: loc() restores the caller's scope and uses each branch's own compartment count."
+    "R-C11-loc: loc() restores the caller's scope and uses each branch's own compartment count. "
+    "R-C11-basestate: updates of the base module's registries are decided on (and accumulated from) the "
+    "base's current entries, not a view's snapshot. R-C11-keyclass: node/edge classification of registry "
+    "keys uses the base module's synaptic name lists."
 )
 ASSUMPTIONS = ["pandas isin/rank/loc semantics", "value-level handling of index forms in _reformat_index beyond the slice range is not decided"]
 
